@@ -178,7 +178,27 @@ def run(repo, rep):
     kf = base.find_method('kill')
     rep.analysed(kf)
     loops = [n for n in ast.walk(kf.node) if isinstance(n, (ast.While, ast.For))]
-    unbounded = [n for n in loops if isinstance(n, ast.While)]
+    def counted_while(w: ast.While) -> bool:
+        """``while i < N:`` whose body increments i by a positive constant on every pass and assigns it nowhere else"""
+        t = w.test
+        if not (isinstance(t, ast.Compare) and len(t.ops) == 1):
+            return False
+        l, r = t.left, t.comparators[0]
+        if isinstance(l, ast.Name) and isinstance(t.ops[0], (ast.Lt, ast.LtE, ast.NotEq)) and repo.try_fold(r, kf.module, kf.cls) is not None:
+            name = l.id
+        elif isinstance(r, ast.Name) and isinstance(t.ops[0], (ast.Gt, ast.GtE, ast.NotEq)) and repo.try_fold(l, kf.module, kf.cls) is not None:
+            name = r.id
+        else:
+            return False
+        incs = [st for st in w.body if isinstance(st, ast.AugAssign) and isinstance(st.target, ast.Name) and st.target.id == name
+                and isinstance(st.op, ast.Add) and isinstance(repo.try_fold(st.value, kf.module, kf.cls), int)
+                and repo.try_fold(st.value, kf.module, kf.cls) > 0]
+        writes = [n for n in ast.walk(w) if isinstance(n, ast.Name) and n.id == name and isinstance(n.ctx, ast.Store)]
+        # the increment must be reached on every pass: no continue before it
+        idx = w.body.index(incs[0]) if incs else -1
+        early = any(isinstance(n, ast.Continue) for st in w.body[:max(idx, 0)] for n in ast.walk(st))
+        return len(incs) == 1 and len(writes) == 1 and not early
+    unbounded = [n for n in loops if isinstance(n, ast.While) and not counted_while(n)]
     calls_dul_kill = any(isinstance(n, ast.Call) and attr_chain(n.func) == ('self', 'dul', 'kill') for n in ast.walk(kf.node))
     rep.check(not unbounded and calls_dul_kill, 'C13.K4', 'asceprovider:Association.kill:bounded-wait', kf.loc(),
               'grace loop is a bounded for-loop and the provider is then told to stop',
